@@ -36,7 +36,7 @@ class C02(core.Prop):
     id = "C02"
     drivers = ["s4u_interp"]
     ready = True
-    sizes = {"quick": 150, "thorough": 5000}
+    sizes = {"quick": 150, "thorough": 1000}
     max_workers = 5
     flaky_ok = True
     technique = ("property-based differential testing (Hypothesis): per-actor observation sequences and kernel signal records of a generated "
